@@ -52,11 +52,13 @@ pub struct Ctx {
 pub struct Outcome {
     pub nontrivial: bool,
     pub labels: Vec<&'static str>,
+    /// executions performed inside this case beyond the case itself (e.g. one per injected fault)
+    pub extra_evals: u64,
 }
 
 impl Outcome {
     pub fn new(nontrivial: bool) -> Self {
-        Self { nontrivial, labels: Vec::new() }
+        Self { nontrivial, labels: Vec::new(), extra_evals: 0 }
     }
     pub fn label(mut self, l: &'static str) -> Self {
         self.labels.push(l);
@@ -413,7 +415,7 @@ where
                             match r {
                                 Ok(outc) => {
                                     if !local_failed.get() {
-                                        shared.evals.fetch_add(1, Ordering::Relaxed);
+                                        shared.evals.fetch_add(1 + outc.extra_evals, Ordering::Relaxed);
                                         for l in &outc.labels {
                                             *o.labels.entry((*l).to_string()).or_insert(0) += 1;
                                         }
